@@ -5,7 +5,6 @@ CLAIMED["C29"] = (
  "Decides, for every path, the structural clauses: a failing load/compile/instantiate/run reaches os.Exit(non-zero) or a returned error that main turns into a non-zero status; no failing exit without a failed error test; the status on the exit path is the code extracted from the engine's ExitError. Does not decide that the engine reports every trap as an error.",
  SSA_BASE)
 
-NA["C10"] = "heap-allocator safety is an invariant over run-time heap states of a hand-written WAT program; no clause is visible in code shape (DESIGN.md section 5)"
 NA["C22"] = "Apply(before, diff)==after is a value-level property of a vendored LCS algorithm; no necessary structural clause; a fork-diff would be a brittle proxy (DESIGN.md section 5)"
 NA["C31"] = "differential behaviour of the vendored wazero engine over all modules; no Wa-specific table to cross-check (DESIGN.md section 5)"
 AST_BASE = "trusted: go/types, go/packages (x/tools v0.29.0), Go 1.23.5; the embedded reference tables in the checker (WebAssembly instruction table etc.)"
@@ -120,3 +119,8 @@ CLAIMED["C18"] = (
  "abstract interpretation of the split functions in a page-form domain (4096·symbolic page + enumerated residue, interval splitting at comparisons); call-site role lint over the type-checked AST",
  "Decides, for every input (all 4096 in-page residues enumerated, page numbers symbolic, every partition induced by a comparison analysed), that SplitOffset/MakePCRel/MakeAbs return lo in [-2048,2047] with 4096·hi+lo equal to the offset (modulo 2^32), that CombineOffset recombines them, that MakeLa64PCRel returns lo12 = target mod 4096 and hi20 ≡ page(target)-page(pc)+[lo12≥0x800] (mod 2^20), and that the assembler call sites pass (address, pc) and route hi/lo correctly. Integer conversions are taken as exact (LoongArch: within the stated ±2 GiB range). Does not decide the instruction encoders' field placement (C17).",
  AST_BASE)
+
+CLAIMED["C10"] = (
+ "symbolic path summaries of the allocator's WAT source (every control-flow path, symbolic operand stack, leaf accessors expanded) compared as linear forms; finite evaluation of the size-class ladder's path conditions",
+ "Decides per-operation necessary conditions of the heap invariant, on both copies of the allocator: the bump amount is payload+8 and memory.grow covers the deficit; every ring path that returns a block moves the rover to the predecessor; split and the four coalescing combinations conserve header and payload bytes and relink the ring; the size classes are positive multiples of 8 at least as large as every request routed to them and agree with free's routing; the spill loop releases every node; fixed-list push/pop keep the count; malloc returns block+8 and free steps back 8. Does not decide the global no-overlap invariant over all histories, nor termination of the ring scan.",
+ "trusted: the WAT reader and path summariser of the checker (watsrc.go, watflow.go)")
